@@ -54,6 +54,10 @@ class IdentityLinearOperator(ConstantDiagLinearOperator):
     def device(self) -> Optional[torch.device]:
         return self._device
 
+    def _bilinear_derivative(self, left_vecs: Tensor, right_vecs: Tensor) -> Tuple[Optional[Tensor], ...]:
+        # no tensors represent this operator
+        return ()
+
     def _maybe_reshape_rhs(self, rhs: Union[torch.Tensor, LinearOperator]) -> Union[torch.Tensor, LinearOperator]:
         if rhs.dim() == 0 or rhs.shape[-2 if rhs.dim() > 1 else -1] != self.diag_shape:
             raise RuntimeError("Size mismatch, self: {}, rhs: {}".format(self.shape, rhs.shape))
